@@ -132,7 +132,13 @@ Definition is_comment (t : tok) : bool :=
 Definition drop_comments (ts : list tok) : list tok := filter (fun t => negb (is_comment t)) ts.
 
 Definition tokenize (s : str) : list tok := drop_comments (tokenize_raw s).
-Definition tokenize_loop (s : str) : list tok := drop_comments (tokenize_raw_loop s).
+(* the same as a loop: drop_comments_acc ts acc = rev acc ++ drop_comments ts *)
+Fixpoint drop_comments_acc (ts acc : list tok) : list tok :=
+  match ts with
+  | [] => rev_append acc []
+  | t :: r => if is_comment t then drop_comments_acc r acc else drop_comments_acc r (t :: acc)
+  end.
+Definition tokenize_loop (s : str) : list tok := drop_comments_acc (tokenize_raw_loop s) [].
 
 (* the factory state after a prefix, and the tokens already yielded *)
 Fixpoint state_after (st : lst) (s : str) : lst :=
